@@ -264,8 +264,15 @@ class CIDict(dict):
         return CIDict(self)
 
 
+_MK = [0]
+
+
 def mk_conns():
-    base = conn_http.HttpConn("http://h")
+    # the underlying connection is described by an address, by a list or by a dictionary of arguments; the
+    # connection whose adapter supplies the ids gets that adapter at construction or afterwards (add_adapter)
+    _MK[0] += 1
+    how = _MK[0] % 3
+    base = conn_http.HttpConn("http://h" if how == 0 else ["http://h"] if how == 1 else {'address': "http://h"})
     op = Opener()
     _CURRENT_OPENER[0] = op
     base.conn_impl.opener = op
@@ -273,7 +280,11 @@ def mk_conns():
     d2 = conn_http.HttpConn(base, adapters=conn_http.RequestAdapterAddPathPrefix("/x"))
     d3 = conn_http.HttpConn(d2, adapters=conn_http.RequestAdapterAddPathPrefix("/y"))
     op.adapter_ids = []
-    d4 = conn_http.HttpConn(base, adapters=[IdAdapter(op.adapter_ids)])
+    if _MK[0] % 2:
+        d4 = conn_http.HttpConn(base, adapters=[IdAdapter(op.adapter_ids)])
+    else:
+        d4 = conn_http.HttpConn(base)
+        d4.add_adapter(IdAdapter(op.adapter_ids))
     d5 = CallerConn(Caller16(base).clone(conn_http.BAuthConn.Adapter("u", "p")))
     d6 = conn_http.HttpConn(d1, adapters=[ReplacingIdAdapter(op.adapter_ids)])
     return op, [base, d1, d2, d3, d4, d5, d6]
@@ -452,6 +463,14 @@ def stress_round(ctx, seed, interleavings, case_no):
         return
     ctx.count("yields_injected", injected[0])
     ctx.count("connections_described_between_requests", len(described))
+    through_id_adapters = sum(n_req for i in range(n_threads) if uses_id_adapter(i))
+    ctx.count("requests_through_connections_whose_adapter_supplies_the_id", through_id_adapters)
+    if len(op.adapter_ids) != through_id_adapters:
+        # (the adapter of such a connection has to see every request of it: its ids are the caller's ids)
+        ctx.violation("caller-supplied-id-not-sent-unchanged-exactly-once",
+                      {"requests_through_the_id_supplying_connections": through_id_adapters,
+                       "ids_the_adapter_was_asked_for": len(op.adapter_ids)}, case)
+        return
     order = judge_history(ctx, op.reqs, None, own_expected, case, adapter_ids=op.adapter_ids)
     if order is not None:
         tid_index = {}
